@@ -3,7 +3,7 @@ Import ListNotations.
 Require Import CoStream.
 
 (* Invariants of the acceptor = the theorems-to-be of C13-C15 (every accepted event list satisfies them). *)
-Definition reach (c: cfg) (s: st) := exists es k, run c init es k = (s, None).
+Definition reach (c: cfg) (s: st) := exists es k, run c (init c) es k = (s, None).
 Lemma run_app c s es k : forall s', run c s es k = (s', None) -> forall e s'', step c s' e = Some s'' -> run c s (es ++ [e]) k = (s'', None).
 Proof.
   revert s k. induction es as [|x es IH]; intros s k s' H e s'' He; cbn in *.
@@ -12,10 +12,10 @@ Proof.
 Qed.
 
 (* an invariant holds in every reachable state if it holds initially and every accepted step preserves it *)
-Lemma inv_reach c (I: st -> Prop) : I init -> (forall s e s', I s -> step c s e = Some s' -> I s') ->
+Lemma inv_reach c (I: st -> Prop) : (forall s e s', I s -> step c s e = Some s' -> I s') ->
   forall es s k s0, I s0 -> run c s0 es k = (s, None) -> I s.
 Proof.
-  intros H0 Hs es. induction es as [|e es IH]; intros s k s0 HI Hr; cbn in Hr.
+  intros Hs es. induction es as [|e es IH]; intros s k s0 HI Hr; cbn in Hr.
   - inversion Hr; subst; auto.
   - destruct (step c s0 e) as [s1|] eqn:E; [|discriminate]. apply (IH s (S k) s1); [eapply Hs; eauto | exact Hr].
 Qed.
@@ -101,12 +101,11 @@ Proof.
 Qed.
 
 (* every accepted trace keeps the number of in-flight items within the limit *)
-Theorem C13_limit c l es s k : limited c l -> 1 <= l -> run c init es k = (s, None) -> cnt (works s) <= l.
+Theorem C13_limit c l es s k : limited c l -> 1 <= l -> run c (init c) es k = (s, None) -> cnt (works s) <= l.
 Proof.
   intros HL Hl Hr. eapply (inv_reach c (CInv c l)); eauto.
-  - unfold CInv; cbn. lia.
   - intros; eapply C13_limit_step; eauto.
-  - unfold CInv; cbn. lia.
+  - unfold CInv, init. destruct (c_take c) as [[|t]|]; cbn; lia.
 Qed.
 
 (* ---- C14: once an error has been observed the consumer has left the running phase for good, so no further
@@ -159,11 +158,11 @@ Proof.
   - destruct (ph s) eqn:Eph; inversion Hs; subst; cbn [ph residual set_ph upd_st]; rewrite ?Eph; auto.
 Qed.
 
-Theorem C14_stop c es s k j : run c init es k = (s, None) -> residual s <> None -> step c s (ESrc (Some j)) = None.
+Theorem C14_stop c es s k j : run c (init c) es k = (s, None) -> residual s <> None -> step c s (ESrc (Some j)) = None.
 Proof.
   intros Hr Hres.
   assert (HI : EInv s).
-  { eapply (inv_reach c EInv); eauto; [intros H; cbn in H; congruence | intros; eapply C14_stop_step; eauto | intros H; cbn in H; congruence]. }
+  { eapply (inv_reach c EInv); eauto; [intros; eapply C14_stop_step; eauto | intros H; unfold init in H; destruct (c_take c) as [[|t]|]; cbn in H; congruence]. }
   specialize (HI Hres). unfold not_running in HI. cbn [step]. destruct (ph s); try reflexivity; contradiction.
 Qed.
 
@@ -228,11 +227,12 @@ Proof.
     specialize (IH s1 s (S k) e (seen ++ errs_seen [x]) H1 Hr He). rewrite <- app_assoc in IH. replace (x :: es) with ([x] ++ es) by reflexivity. unfold errs_seen in *. rewrite flat_map_app. exact IH.
 Qed.
 (* the error a fallible driver reports is one that a terminal closure actually returned *)
-Theorem C14_err_genuine c es s k e s' : run c init es k = (s, None) -> step c s (EResult (RErrV e)) = Some s' -> c_term c = TTryForEach ->
+Theorem C14_err_genuine c es s k e s' : run c (init c) es k = (s, None) -> step c s (EResult (RErrV e)) = Some s' -> c_term c = TTryForEach ->
   exists j, In (EDone 1 j (Some e)) es.
 Proof.
   intros Hr Hs Ht. pose proof (C13_structured c s (RErrV e) s' Hs) as X. rewrite Ht in X.
-  pose proof (C14_err_seen c es init s k e [] (fun H => match H with eq_refl => I end) Hr X) as Hin. cbn in Hin.
+  assert (H0 : residual (init c) = Some e -> In e []) by (unfold init; destruct (c_take c) as [[|t]|]; cbn; discriminate).
+  pose proof (C14_err_seen c es (init c) s k e [] H0 Hr X) as Hin. cbn in Hin.
   unfold errs_seen in Hin. apply in_flat_map in Hin as (x & Hx & Hin). destruct x; try contradiction.
   destruct stage as [|[|?]]; try contradiction. destruct err; [|contradiction]. destruct Hin as [->|[]]. eauto.
 Qed.
@@ -445,13 +445,12 @@ Proof.
     destruct (ph s) eqn:Eph; injection Hs as <-; try exact HI; (apply (H_same s); [exact HI|reflexivity|reflexivity|reflexivity|right; intros j'; cbn; discriminate]).
 Qed.
 
-Theorem C13_once c es s k : run c init es k = (s, None) -> NoDup (calls s).
+Theorem C13_once c es s k : run c (init c) es k = (s, None) -> NoDup (calls s).
 Proof.
-  intros H. apply (inv_reach c OInv) with (es := es) (k := k) (s0 := init) in H.
+  intros H. apply (inv_reach c OInv) with (es := es) (k := k) (s0 := init c) in H.
   - apply H.
-  - split; [constructor|]. split; [intros j x Hf; discriminate|]. split; [intros stg j []|intros j Hj; discriminate].
   - intros s0 e s1. apply C13_once_step.
-  - split; [constructor|]. split; [intros j x Hf; discriminate|]. split; [intros stg j []|intros j Hj; discriminate].
+  - unfold init; destruct (c_take c) as [[|t]|]; (split; [constructor|]; split; [intros j x Hf; discriminate|]; split; [intros stg j []|intros j Hj; discriminate]).
 Qed.
 
 (* ---- C14_cancel: nothing completes, and no closure runs, once the result has been returned or the operation was dropped ---- *)
@@ -506,12 +505,13 @@ Proof.
       try (match goal with E: residual s = _ |- _ => rewrite E end; exact F2).
   - destruct (ph s) eqn:Eph; injection H as <-; split; cbn; rewrite ?Eph; auto; discriminate.
 Qed.
-Theorem C14_ok_source c es s k s' : run c init es k = (s, None) -> c_take c = None -> c_term c = TTryForEach ->
+Theorem C14_ok_source c es s k s' : run c (init c) es k = (s, None) -> c_take c = None -> c_term c = TTryForEach ->
   step c s (EResult ROkUnit) = Some s' -> src_done s = true.
 Proof.
   intros Hr Ht Hterm Hs.
   assert (HI : FInv c s).
-  { apply (inv_reach c (FInv c)) with (es := es) (k := k) (s0 := init); auto; try (split; cbn; discriminate). intros; eapply FInv_step; eauto. }
+  { apply (inv_reach c (FInv c)) with (es := es) (k := k) (s0 := init c); auto; [intros; eapply FInv_step; eauto|].
+    unfold init. rewrite Ht. split; cbn; discriminate. }
   pose proof (C13_structured c s ROkUnit s' Hs) as X. rewrite Hterm in X. destruct X as [Xr _].
   cbn [step] in Hs. destruct (ph s) eqn:Eph; try discriminate. destruct HI as [F1 F2]. destruct (F1 Eph) as [A|B]; auto.
   destruct (F2 B) as [Y|Y]; congruence.
